@@ -85,6 +85,12 @@ pub fn fill_queue_model<F: Float>(
 ) -> BinaryHeap<Rc<SweepEvent<F>>> {
     model_box(sbbox, subject.len());
     model_box(cbbox, clipping.len());
+    // harness-selected slice of the box space (0: all, 1: disjoint boxes only, 2: touching/overlapping only)
+    match unsafe { BOX_MODE } {
+        1 => kani::assume(boxes_disjoint(box4(sbbox), box4(cbbox))),
+        2 => kani::assume(!boxes_disjoint(box4(sbbox), box4(cbbox))),
+        _ => {}
+    }
     unsafe {
         REC.fq_calls += 1;
         REC.subj_len = subject.len();
@@ -114,15 +120,21 @@ pub fn subdivide_model<F: Float>(
 /// forest handed out by the connect_edges model: a concrete template (selected by the harness through
 /// FOREST_TEMPLATE) so that all container shapes are concrete; hole ids are any valid indices
 static mut FOREST_TEMPLATE: u8 = 0;
+static mut BOX_MODE: u8 = 0;
 pub fn connect_edges_model<F: Float>(_sorted_events: &[Rc<SweepEvent<F>>]) -> Vec<Contour<F>> {
     // (hole_of, hole ids) per contour
     let t: [(i32, [i32; 2]); 3] = match unsafe { FOREST_TEMPLATE } {
-        0 => [(-1, [1, 2]), (0, [-1, -1]), (0, [-1, -1])],  // one exterior with two holes
-        1 => [(-1, [-1, -1]), (-1, [2, -1]), (1, [-1, -1])], // two exteriors, the second with a hole
-        2 => [(-1, [2, -1]), (-1, [-1, -1]), (0, [-1, -1])], // hole listed out of order
-        _ => [(-1, [-1, -1]), (-1, [-1, -1]), (-1, [-1, -1])], // three exteriors
+        0 => [(-1, [1, -1]), (0, [-1, -1]), (-1, [-1, -1])],  // exterior with a hole (2 contours)
+        1 => [(-1, [-1, -1]), (-1, [-1, -1]), (-1, [-1, -1])], // two exteriors (2 contours)
+        2 => [(1, [-1, -1]), (-1, [0, -1]), (-1, [-1, -1])],  // hole listed before its exterior (2 contours)
+        3 => [(-1, [1, 2]), (0, [-1, -1]), (0, [-1, -1])],   // one exterior with two holes (3 contours)
+        _ => [(-1, [-1, -1]), (-1, [-1, -1]), (-1, [-1, -1])],
     };
-    let nc: usize = if unsafe { FOREST_TEMPLATE } == 4 { 0 } else { 3 };
+    let nc: usize = match unsafe { FOREST_TEMPLATE } {
+        0 | 1 | 2 => 2,
+        3 => 3,
+        _ => 0,
+    };
     let mut out: Vec<Contour<F>> = Vec::with_capacity(3);
     macro_rules! add {
         ($i:expr) => {
@@ -190,7 +202,7 @@ fn boxes_disjoint(a: (f64, f64, f64, f64), b: (f64, f64, f64, f64)) -> bool {
     a.2 < b.0 || b.2 < a.0 || a.3 < b.1 || b.3 < a.1
 }
 
-fn check(res: MultiPolygon<f64>, op: Operation, ns: usize, nc: usize, smark: f64, cmark: f64) {
+fn check(res: MultiPolygon<f64>, op: Operation, ns: usize, nc: usize, smark: f64, cmark: f64, full: bool) {
     let r = unsafe { &REC };
     assert!(r.fq_calls == 1, "the queue is filled exactly once");
     assert!(r.op == Some(op), "the requested operation is forwarded");
@@ -205,7 +217,7 @@ fn check(res: MultiPolygon<f64>, op: Operation, ns: usize, nc: usize, smark: f64
         };
         assert!(res.0.len() == want, "shortcut: empty / subject / subject followed by clipping");
         let mut i = 0;
-        while i < res.0.len() {
+        while full && i < res.0.len() {
             let m = first_mark(&res.0[i]);
             let expect = if i < ns { smark + i as f64 } else { cmark + (i - ns) as f64 };
             assert!(m == expect && res.0[i].interiors().is_empty(), "shortcut: the input polygons are handed back unchanged and in order");
@@ -214,6 +226,10 @@ fn check(res: MultiPolygon<f64>, op: Operation, ns: usize, nc: usize, smark: f64
     } else {
         assert!(r.sd_calls == 1 && r.ce_calls == 1, "touching or overlapping boxes: the sweep runs (no shortcut)");
         assert!(r.sd_op == Some(op) && r.sd_sb == r.sb && r.sd_cb == r.cb, "the sweep gets the operation and the boxes computed by queue filling");
+        if !full {
+            std::mem::forget(res);
+            return;
+        }
         // assembly: one polygon per exterior contour, in order, with exactly the rings named by hole_ids
         let mut k = 0;
         let mut i = 0;
@@ -235,14 +251,11 @@ fn check(res: MultiPolygon<f64>, op: Operation, ns: usize, nc: usize, smark: f64
         }
         assert!(k == res.0.len(), "contours that are holes do not become polygons");
     }
-    kani::cover!(boxes_disjoint(r.sb, r.cb) && op == Operation::Union, "shortcut taken");
-    if ns > 0 && nc > 0 {
-        kani::cover!(!boxes_disjoint(r.sb, r.cb) && (r.sb.2 == r.cb.0 || r.sb.3 == r.cb.1), "boxes that merely touch take the sweep");
-    }
+    std::mem::forget(res);
 }
 
 macro_rules! disp {
-    ($name:ident, $forest:expr, |$op:ident| $body:block) => {
+    ($name:ident, $mode:expr, $forest:expr, $opsel:expr, |$op:ident| $body:block) => {
         #[kani::proof]
         #[kani::unwind(4)]
         #[kani::stub(super::super::fill_queue::fill_queue, fill_queue_model)]
@@ -251,54 +264,93 @@ macro_rules! disp {
         fn $name() {
             unsafe {
                 FOREST_TEMPLATE = $forest;
+                BOX_MODE = $mode;
             }
-            let $op = any_op();
+            // operation: symbolic (255) or a concrete one where only forwarding is the subject
+            let $op = match $opsel {
+                0 => Operation::Intersection,
+                1 => Operation::Union,
+                2 => Operation::Xor,
+                3 => Operation::Difference,
+                _ => any_op(),
+            };
             $body
         }
     };
 }
-disp!(dispatch_poly_poly, 0, |op| {
+// --- which path is taken, and the shortcut table: all boxes, all operations, Polygon x Polygon
+disp!(dispatch_predicate, 0, 4, 255, |op| {
     let (a, b) = (marked(1.0), marked(5.0));
     let r = a.boolean(&b, op);
-    check(r, op, 1, 1, 1.0, 5.0);
+    check(r, op, 1, 1, 1.0, 5.0, true);
+    let rec = unsafe { &REC };
+    kani::cover!(boxes_disjoint(rec.sb, rec.cb) && op == Operation::Difference, "shortcut taken");
+    kani::cover!(!boxes_disjoint(rec.sb, rec.cb) && (rec.sb.2 == rec.cb.0 || rec.sb.3 == rec.cb.1), "boxes that merely touch take the sweep");
+    kani::cover!(!boxes_disjoint(rec.sb, rec.cb) && rec.sb.2 > rec.cb.0 && rec.cb.2 > rec.sb.0, "overlapping boxes");
 });
-disp!(dispatch_poly_multi0, 1, |op| {
-    let (a, b) = (marked(1.0), multi(0, 5.0));
-    let r = a.boolean(&b, op);
-    check(r, op, 1, 0, 1.0, 5.0);
-});
-disp!(dispatch_poly_multi2, 2, |op| {
+// --- forwarding of (self, rhs) per trait impl and operand size (disjoint boxes; the operation is only forwarded)
+disp!(dispatch_forward_poly_multi2, 1, 4, 3, |op| {
     let (a, b) = (marked(1.0), multi(2, 5.0));
     let r = a.boolean(&b, op);
-    check(r, op, 1, 2, 1.0, 5.0);
+    check(r, op, 1, 2, 1.0, 5.0, true);
 });
-disp!(dispatch_multi0_multi0, 3, |op| {
-    let (a, b) = (multi(0, 1.0), multi(0, 5.0));
-    let r = a.boolean(&b, op);
-    check(r, op, 0, 0, 1.0, 5.0);
-});
-disp!(dispatch_multi2_multi1, 1, |op| {
+disp!(dispatch_forward_multi2_multi1, 1, 4, 3, |op| {
     let (a, b) = (multi(2, 1.0), multi(1, 5.0));
     let r = a.boolean(&b, op);
-    check(r, op, 2, 1, 1.0, 5.0);
+    check(r, op, 2, 1, 1.0, 5.0, true);
 });
-disp!(dispatch_multi0_multi2, 4, |op| {
-    let (a, b) = (multi(0, 1.0), multi(2, 5.0));
-    let r = a.boolean(&b, op);
-    check(r, op, 0, 2, 1.0, 5.0);
-});
-disp!(dispatch_multi0_poly, 0, |op| {
-    let (a, b) = (multi(0, 1.0), marked(5.0));
-    let r = a.boolean(&b, op);
-    check(r, op, 0, 1, 1.0, 5.0);
-});
-disp!(dispatch_multi2_poly, 2, |op| {
+disp!(dispatch_forward_multi2_poly, 1, 4, 3, |op| {
     let (a, b) = (multi(2, 1.0), marked(5.0));
     let r = a.boolean(&b, op);
-    check(r, op, 2, 1, 1.0, 5.0);
+    check(r, op, 2, 1, 1.0, 5.0, true);
+});
+disp!(dispatch_union_multi1_multi1, 1, 4, 1, |op| {
+    let (a, b) = (multi(1, 1.0), multi(1, 5.0));
+    let r = a.boolean(&b, op);
+    check(r, op, 1, 1, 1.0, 5.0, true);
+});
+// empty operands always take the shortcut (their box stays at the initial (+inf, -inf)): all boxes, all operations
+disp!(dispatch_empty_subject, 0, 4, 255, |op| {
+    let (a, b) = (multi(0, 1.0), marked(5.0));
+    let r = a.boolean(&b, op);
+    assert!(unsafe { REC.sd_calls } == 0, "an empty subject never reaches the sweep");
+    check(r, op, 0, 1, 1.0, 5.0, true);
+});
+disp!(dispatch_empty_clipping, 0, 4, 255, |op| {
+    let (a, b) = (marked(1.0), multi(0, 5.0));
+    let r = a.boolean(&b, op);
+    assert!(unsafe { REC.sd_calls } == 0, "an empty clipping operand never reaches the sweep");
+    check(r, op, 1, 0, 1.0, 5.0, true);
+});
+disp!(dispatch_empty_both, 0, 4, 255, |op| {
+    let (a, b) = (multi(0, 1.0), multi(0, 5.0));
+    let r = a.boolean(&b, op);
+    assert!(r.0.is_empty(), "empty op empty is empty");
+    check(r, op, 0, 0, 1.0, 5.0, true);
+});
+// --- the sweep path and the assembly of polygons from the contour forest (touching/overlapping boxes only)
+disp!(dispatch_sweep_forest0, 2, 0, 1, |op| {
+    let (a, b) = (marked(1.0), marked(5.0));
+    let r = a.boolean(&b, op);
+    check(r, op, 1, 1, 1.0, 5.0, true);
+});
+disp!(dispatch_sweep_forest1, 2, 1, 0, |op| {
+    let (a, b) = (marked(1.0), marked(5.0));
+    let r = a.boolean(&b, op);
+    check(r, op, 1, 1, 1.0, 5.0, true);
+});
+disp!(dispatch_sweep_forest2, 2, 2, 3, |op| {
+    let (a, b) = (marked(1.0), marked(5.0));
+    let r = a.boolean(&b, op);
+    check(r, op, 1, 1, 1.0, 5.0, true);
+});
+disp!(dispatch_sweep_forest3, 2, 3, 2, |op| {
+    let (a, b) = (marked(1.0), marked(5.0));
+    let r = a.boolean(&b, op);
+    check(r, op, 1, 1, 1.0, 5.0, true);
 });
 /// the named convenience methods are the four operations
-disp!(dispatch_named_methods, 3, |op| {
+disp!(dispatch_named_methods, 1, 4, 255, |op| {
     let (a, b) = (marked(1.0), marked(5.0));
     let r = match op {
         Operation::Intersection => a.intersection(&b),
@@ -306,5 +358,5 @@ disp!(dispatch_named_methods, 3, |op| {
         Operation::Xor => a.xor(&b),
         Operation::Difference => a.difference(&b),
     };
-    check(r, op, 1, 1, 1.0, 5.0);
+    check(r, op, 1, 1, 1.0, 5.0, true);
 });
